@@ -21,7 +21,7 @@ Proof. exact sign_no_panic. Qed.
 Theorem C15_blind_sign_decision : forall rx_match is_utf8 idn sch blindable s req known ctx_ok s' i,
   blind_sign_credential rx_match is_utf8 idn sch blindable s req known ctx_ok = Ok (s', i) <->
   (length req + length known = length sch)%nat /\ labels_ok blindable req (map fst known) [] = true /\
-  Forall (known_passes rx_match is_utf8 sch) known /\ last_rev known None = Some i /\
+  Forall (known_passes rx_match is_utf8 sch) known /\ rev_claims (map snd known) = [i] /\
   already_revoked s (idn i) = false /\ ctx_ok = true /\ s' = record s (idn i).
 Proof. exact blind_sign_decision. Qed.
 Theorem C15_blind_sign_no_panic : forall rx_match is_utf8 idn sch blindable s req known ctx_ok,
